@@ -113,6 +113,7 @@ type runner struct {
 
 	faultMu sync.Mutex
 	opCount map[string]int
+	began   time.Time // start of the scenario: all bounded waits together stay below the child-process timeout
 	txKeys  map[int][]string // keys written by each transaction (for commit faults with a key)
 	armed   bool
 	gates   []*storeGate
@@ -138,7 +139,7 @@ func Run(raw []byte) []trace.Event {
 	if sc.Procs1 > 0 {
 		defer runtime.GOMAXPROCS(runtime.GOMAXPROCS(sc.Procs1))
 	}
-	r := &runner{sc: &sc, log: l, ctx: context.Background(), opCount: map[string]int{}}
+	r := &runner{sc: &sc, log: l, ctx: context.Background(), opCount: map[string]int{}, began: time.Now()}
 	r.quiet = 1500 * time.Microsecond
 	if sc.QuietUs > 0 {
 		r.quiet = time.Duration(sc.QuietUs) * time.Microsecond
@@ -417,6 +418,25 @@ func (r *runner) waitCallUnlessHeld(c *call, d time.Duration) bool {
 	return false
 }
 
+// bound is the liveness bound for the next wait: 40 s, but once a hang has been recorded (the engine is wedged;
+// everything after it would time out as well) 3 s, and never beyond the scenario's overall budget of 150 s - the
+// child process is killed at 180 s, and a scenario that is cut off loses its trace.
+func (r *runner) bound() time.Duration {
+	d := hangBound
+	if r.log.Has("Hang") {
+		d = 3 * time.Second
+	}
+	if !r.began.IsZero() {
+		if left := time.Until(r.began.Add(150 * time.Second)); left < d {
+			d = left
+		}
+	}
+	if d < time.Second {
+		d = time.Second
+	}
+	return d
+}
+
 const (
 	enableWait = 250 * time.Millisecond
 	hangBound  = 40 * time.Second
@@ -463,7 +483,7 @@ func (r *runner) step(i int, st Step) {
 		r.armed = true
 		r.faultMu.Unlock()
 		c := r.async("Start", func() error { return e.LC.Start(r.ctx, PipelineID) })
-		if !r.waitCallUnlessHeld(c, hangBound) {
+		if !r.waitCallUnlessHeld(c, r.bound()) {
 			r.log.Add("Hang", "call", "Start")
 		}
 		r.started = true
@@ -840,7 +860,7 @@ func (r *runner) finalize() {
 		r.log.WaitFor(func() bool {
 			s := r.pipelineStatus()
 			return s != "Running" && s != "Recovering"
-		}, hangBound)
+		}, r.bound())
 	}
 	if r.started && final != "none" {
 		// stop whatever is (still, or again after a recovery restart) running
@@ -856,7 +876,7 @@ func (r *runner) finalize() {
 			} else {
 				c = r.async("StopAndWait", func() error { return r.eng.LC.StopAndWait(r.ctx, PipelineID) })
 			}
-			if !waitCall(c, hangBound) {
+			if !waitCall(c, r.bound()) {
 				break
 			}
 			r.log.WaitFor(func() bool {
@@ -882,7 +902,7 @@ func (r *runner) finalize() {
 		go func() { r.eng.Conns.WaitPersisted(); close(done) }()
 		select {
 		case <-done:
-		case <-time.After(hangBound):
+		case <-time.After(r.bound()):
 			// not a control call of the pipeline: the harness's own wait for the shared persister (what the
 			// server does at shutdown). Recorded as an observation, not as a Hang of the engine's API - see
 			// DESIGN.md, observation O1 (a failed flush whose error nobody reads blocks the callback forever).
@@ -909,7 +929,7 @@ func (r *runner) restartCheck() {
 	r.calls = nil
 	r.mu.Unlock()
 	c := r.async("Start", func() error { return r.eng.LC.Start(r.ctx, PipelineID) })
-	if !waitCall(c, hangBound) {
+	if !waitCall(c, r.bound()) {
 		r.log.Add("Hang", "call", "Start")
 		return
 	}
@@ -918,7 +938,7 @@ func (r *runner) restartCheck() {
 
 // awaitCalls waits (bounded) for every outstanding control call; a call that does not return is a Hang.
 func (r *runner) awaitCalls(skipWaits bool) {
-	deadline := time.Now().Add(hangBound)
+	deadline := time.Now().Add(r.bound())
 	r.mu.Lock()
 	calls := append([]*call(nil), r.calls...)
 	r.mu.Unlock()
